@@ -82,6 +82,76 @@ func ilContent(x *hx.Exec) string {
 	return c.Text
 }
 
+// runC08CommandInterleave: the same for COMMANDS, executed in-process through the server's parse
+// and run code on the plain handle: a command that writes several elements, or reads several, is
+// one atomic step however the command layer maps it onto the Go API.
+func runC08CommandInterleave() {
+	dir, err := os.MkdirTemp("", "sysrun-ilc-")
+	if err != nil {
+		fail("harness", err.Error(), nil)
+		return
+	}
+	defer os.RemoveAll(dir)
+	cmd := func(write bool, args ...string) *hx.Op { return hx.CommandOp(write, args...) }
+	step := func(op *hx.Op) *hx.Step { return &hx.Step{Ops: []*hx.Op{op}} }
+	prefix := []*hx.Step{
+		step(cmd(true, "MSET", "k1", "a", "k2", "a")), step(cmd(true, "HSET", "h", "f1", "0", "f2", "0")),
+		step(cmd(true, "SADD", "e", "x")), step(cmd(true, "SADD", "e2", "y")), step(cmd(true, "ZADD", "z", "1", "x")),
+		step(cmd(true, "RPUSH", "l", "a")), step(cmd(true, "RPUSH", "l", "b")), step(cmd(true, "RPUSH", "l", "c")),
+	}
+	X := func(name string, write bool, args ...string) ilX { return ilX{name, cmd(write, args...)} }
+	type cc struct {
+		w  *hx.Op
+		xs []ilX
+	}
+	cases := []cc{
+		{cmd(true, "HSET", "h", "f1", "1", "f2", "1"), []ilX{X("reader", false, "HMGET", "h", "f1", "f2"), X("rival", true, "HSET", "h", "f2", "2", "f1", "2")}},
+		{cmd(true, "HMSET", "h", "f1", "1", "f2", "1"), []ilX{X("reader", false, "HMGET", "h", "f1", "f2"), X("rival", true, "HMSET", "h", "f2", "2", "f1", "2")}},
+		{cmd(true, "HDEL", "h", "f1", "f2"), []ilX{X("reader", false, "HMGET", "h", "f1", "f2"), X("reader", false, "HLEN", "h")}},
+		{cmd(true, "MSET", "k1", "1", "k2", "1"), []ilX{X("reader", false, "MGET", "k1", "k2"), X("rival", true, "MSET", "k2", "2", "k1", "2")}},
+		{cmd(true, "DEL", "k1", "k2"), []ilX{X("reader", false, "MGET", "k1", "k2"), X("reader", false, "EXISTS", "k1", "k2")}},
+		{cmd(true, "RENAME", "k1", "k3"), []ilX{X("reader", false, "EXISTS", "k1", "k3"), X("reader", false, "MGET", "k1", "k3")}},
+		{cmd(true, "SADD", "e", "m1", "m2"), []ilX{X("reader", false, "SCARD", "e"), X("rival", true, "SREM", "e", "m1", "m2", "x")}},
+		{cmd(true, "SREM", "e", "x", "nothing"), []ilX{X("reader", false, "SCARD", "e")}},
+		{cmd(true, "SUNIONSTORE", "d", "e", "e2"), []ilX{X("reader", false, "SCARD", "d"), X("rival", true, "SADD", "e2", "late")}},
+		{cmd(true, "SMOVE", "e", "e2", "x"), []ilX{X("reader", true, "SUNIONSTORE", "probe", "e", "e2"), X("reader", false, "SISMEMBER", "e2", "x")}},
+		{cmd(true, "ZADD", "z", "1", "m1", "2", "m2"), []ilX{X("reader", false, "ZCARD", "z"), X("reader", false, "ZRANGE", "z", "0", "-1")}},
+		{cmd(true, "ZREM", "z", "x", "nothing"), []ilX{X("reader", false, "ZCARD", "z")}},
+		{cmd(true, "RPUSH", "l", "x"), []ilX{X("reader", false, "LRANGE", "l", "0", "-1"), X("reader", false, "LLEN", "l"), X("rival", true, "LPUSH", "l", "p")}},
+		{cmd(true, "LPUSH", "l", "x"), []ilX{X("reader", false, "LRANGE", "l", "-2", "-1"), X("rival", true, "RPOP", "l")}},
+		{cmd(true, "RPOPLPUSH", "l", "l2"), []ilX{X("reader", false, "LLEN", "l"), X("reader", false, "LRANGE", "l2", "0", "-1")}},
+		{cmd(true, "LINSERT", "l", "BEFORE", "b", "n"), []ilX{X("reader", false, "LRANGE", "l", "0", "-1"), X("rival", true, "LREM", "l", "0", "b")}},
+		{cmd(true, "SET", "k1", "v", "EX", "1000"), []ilX{X("rival", true, "SET", "k1", "w"), X("rival", true, "DEL", "k1")}},
+		{cmd(true, "GETSET", "k1", "n"), []ilX{X("rival", true, "GETSET", "k1", "m"), X("rival", true, "SETNX", "k1", "q")}},
+		{cmd(true, "INCRBYFLOAT", "z9", "1.5"), []ilX{X("rival", true, "INCRBYFLOAT", "z9", "2.5")}},
+		{cmd(true, "HINCRBY", "h", "f1", "5"), []ilX{X("rival", true, "HINCRBY", "h", "f1", "7"), X("rival", true, "HSET", "h", "f1", "100")}},
+		{cmd(true, "ZINCRBY", "z", "2", "x"), []ilX{X("rival", true, "ZINCRBY", "z", "3", "x"), X("rival", true, "ZADD", "z", "10", "x")}},
+		// reads held between their statements
+		{cmd(false, "MGET", "k1", "k2"), []ilX{X("writer", true, "MSET", "k1", "1", "k2", "1"), X("writer", true, "DEL", "k1", "k2")}},
+		{cmd(false, "HMGET", "h", "f1", "f2"), []ilX{X("writer", true, "HSET", "h", "f1", "1", "f2", "1")}},
+		{cmd(false, "EXISTS", "k1", "k3"), []ilX{X("writer", true, "RENAME", "k1", "k3")}},
+		{cmd(false, "LRANGE", "l", "0", "-1"), []ilX{X("writer", true, "LPUSH", "l", "x"), X("writer", true, "LPOP", "l")}},
+		{cmd(false, "LRANGE", "l", "-2", "-1"), []ilX{X("writer", true, "LPUSH", "l", "x"), X("writer", true, "RPOP", "l")}},
+		{cmd(false, "LINDEX", "l", "-1"), []ilX{X("writer", true, "RPUSH", "l", "x"), X("writer", true, "RPOP", "l")}},
+		{cmd(false, "ZRANGE", "z", "0", "-1", "WITHSCORES"), []ilX{X("writer", true, "ZADD", "z", "5", "x", "6", "n")}},
+		{cmd(false, "ZRANGEBYSCORE", "z", "-inf", "+inf"), []ilX{X("writer", true, "ZADD", "z", "5", "x", "6", "n")}},
+		{cmd(false, "SCARD", "e"), []ilX{X("writer", true, "SADD", "e", "m1", "m2")}},
+		{cmd(false, "STRLEN", "k1"), []ilX{X("writer", true, "APPEND", "k1", "xyz")}},
+		{cmd(false, "TTL", "k1"), []ilX{X("writer", true, "SET", "k1", "v", "EX", "1000")}},
+	}
+	dbNo := 0
+	for i, c := range cases {
+		if len(sum.Failures) > 0 {
+			return
+		}
+		before := sum.Cases
+		c08InterleaveCase(dir, nil, 4*i+1, &dbNo, opCase{Hist: &hx.History{ID: 800000 + i}, Prefix: prefix, Target: step(c.w), Kind: c.w.Name, Xs: c.xs})
+		if sum.Cases > before {
+			count("command_interleaved_" + c.w.Name)
+		}
+	}
+}
+
 // readEligible: a single reading operation on the plain handle whose result is determined by the content.
 func readEligible(st *hx.Step) bool {
 	if st.Block || st.Gen != nil || len(st.Ops) != 1 {
@@ -119,20 +189,37 @@ func runC08ReadInterleave(seed int64, n int) {
 	defer func() { coverageCounters("read_interleaved_", informative) }()
 	taken, ci := 0, 0
 	for _, kind := range pool.kinds {
-		if taken >= n || len(sum.Failures) > 0 {
+		if len(sum.Failures) > 0 {
 			break
 		}
-		for try := 0; try < 40; try++ {
+		// two occurrences per kind of read: the first one met, and one with a negative index
+		// argument (resolved against the length) if the generators produced any
+		var picks []opCase
+		var neg *opCase
+		for try := 0; try < 60; try++ {
 			c, found := pool.Take(kind)
-			if !found {
+			if !found || c.Target.Ops[0].Write {
+				break // (kinds are per operation name: a write kind has no reads)
+			}
+			if len(c.Prefix) < 3 {
+				continue // a read of something that is there
+			}
+			if len(picks) == 0 {
+				picks = append(picks, c)
+			} else if neg == nil && strings.Contains(c.Target.Ops[0].Tok, " i-") {
+				cc := c
+				neg = &cc
+			}
+			if neg != nil {
 				break
 			}
-			if c.Target.Ops[0].Write {
-				break // kinds are per operation name: this kind is a write
-			}
-			// a read of something that is there
-			if len(c.Prefix) < 3 {
-				continue
+		}
+		if neg != nil {
+			picks = append(picks, *neg)
+		}
+		for _, c := range picks {
+			if taken >= 2*n || len(sum.Failures) > 0 {
+				break
 			}
 			ci++
 			before := sum.Cases
@@ -140,7 +227,6 @@ func runC08ReadInterleave(seed int64, n int) {
 			if sum.Cases > before {
 				taken++
 				informative[kind]++
-				break
 			}
 		}
 	}
@@ -210,7 +296,14 @@ func writersOf(pool *casePool, r *hx.Op) []ilX {
 	for name := range pool.Ops {
 		names = append(names, name)
 	}
-	sort.Strings(names)
+	// writers of the read's own family first (they change what it reads), then the others
+	sort.Slice(names, func(i, j int) bool {
+		si, sj := names[i][0] == r.Name[0], names[j][0] == r.Name[0]
+		if si != sj {
+			return si
+		}
+		return names[i] < names[j]
+	})
 	for _, name := range names {
 		for _, op := range pool.Ops[name] {
 			f := strings.Fields(op.Tok)
@@ -219,7 +312,7 @@ func writersOf(pool *casePool, r *hx.Op) []ilX {
 				break
 			}
 		}
-		if len(out) >= 3 {
+		if len(out) >= 5 {
 			break
 		}
 	}
@@ -333,7 +426,9 @@ func c08InterleaveCase(dir string, pool *casePool, ci int, dbNoP *int, c opCase)
 		if next != nil {
 			xs = append(xs, ilX{"next-write", next})
 		}
-		if !w.Write {
+		if c.Xs != nil {
+			// scripted second callers
+		} else if !w.Write {
 			// a read: the second callers are writers of the key it reads
 			xs = []ilX{{"delete-keys", hx.KDelete("k1", "k2", "k3")}}
 			if next != nil {
@@ -343,13 +438,17 @@ func c08InterleaveCase(dir string, pool *casePool, ci int, dbNoP *int, c opCase)
 		} else if rv := rival(pool, w); rv != nil && rv != same && rv != next {
 			xs = append(xs, ilX{"rival", rv})
 		}
-		if rv := rivalTail(pool, w); rv != nil && rv != next {
+		if c.Xs != nil {
+		} else if rv := rivalTail(pool, w); rv != nil && rv != next {
 			xs = append(xs, ilX{"rival-for-the-destination", rv})
 		}
 		_ = same
 		// a second call of the very same operation (e.g. two SETNX-style calls racing) is always tried
 		if w.Write {
 			xs = append(xs, ilX{"same-call", w})
+		}
+		if c.Xs != nil {
+			xs = c.Xs
 		}
 		for _, xx := range xs {
 			if len(sum.Failures) > 0 {
